@@ -31,7 +31,7 @@ theorem C01_generated (u : Bool) (ops : List Op) (op : Op) :
   C01 (genTabs u) (eccOk u) ops op
 theorem C02_generated (u : Bool) (ops : List Op) (op : Op) :
     chkCells (genTabs u).cfg (monAfter (genTabs u).cfg ops) (recOf (genTabs u).cfg (run (genTabs u).cfg ops) op) = true :=
-  C02 (genTabs u) (eccOk u) ops op
+  C02_closed_form (genTabs u) (eccOk u) ops op
 theorem C04_generated (u : Bool) (ops : List Op) (op : Op) :
     chkC04 (monAfter (genTabs u).cfg ops) (recOf (genTabs u).cfg (run (genTabs u).cfg ops) op) = true :=
   C04 (genTabs u) (eccOk u) ops op
